@@ -40,7 +40,7 @@ class SurveyScenario(BaseScenario):
     def __init__(self, prop="C20"):
         self.prop = prop
         self.expected_probes = ["link_from_receivers", "link_from_partner", "edit_from_receivers", "edit_from_partner", "copy_plain", "copy_masked", "copy_cross",
-                                "copy_of_copy", "copy_from_partner_side", "copy_masked_large_loop", "reopen", "partner_resolved_after_reopen"] + [f"pair:{p}" for p in PAIRS]
+                                "copy_of_copy", "copy_from_partner_side", "copy_masked_large_loop", "link_at_creation", "reopen", "partner_resolved_after_reopen"] + [f"pair:{p}" for p in PAIRS]
         self.rule = ("one evaluation = one seeded history on one survey class pair (airborne / moving-loop / large-loop TEM and FEM, tipper, MT, direct current): link "
                      "from either side, edits of shared parameters (channels, unit, input type, loop radius, offsets and angles, waveform, timing mark, component data) "
                      "through either side, copies (plain, masked, cross-workspace, copies of copies, from either side), re-open, GC points, dropped references. After "
@@ -52,7 +52,7 @@ class SurveyScenario(BaseScenario):
     def make_config(self, rng):
         return {"pair": rng.choice(sorted(PAIRS)), "two_ws": rng.random() < 0.5, "gc": rng.choices(["none", "op", "io"], [3, 4, 3])[0],
                 "gc_density": rng.choice([0.2, 0.5]), "h5repack": "absent", "n_ops": rng.choice([4, 8, 12, 16]), "link_from": rng.choice(["rx", "partner"]),
-                "hold": rng.random() < 0.5, "peek": rng.random() < 0.5}
+                "hold": rng.random() < 0.5, "peek": rng.random() < 0.5, "link_at_creation": rng.choice([None, None, None, "rx", "px"])}
 
     def simplify_config(self, cfg):
         out = []
@@ -66,7 +66,7 @@ class SurveyScenario(BaseScenario):
     def build(self, ws, cfg, r):
         from geoh5py import objects
 
-        rx_cls, px_cls, _, _, family = PAIRS[cfg["pair"]]
+        rx_cls, px_cls, rx_attr, px_attr, family = PAIRS[cfg["pair"]]
         xs = np.arange(N_VERT, dtype=float)
         verts = np.c_[xs * 10.0, np.array([build.fval(r) for _ in range(N_VERT)]), np.zeros(N_VERT)]
         out = {}
@@ -83,6 +83,15 @@ class SurveyScenario(BaseScenario):
             px.add_default_ab_cell_id()
             rx = getattr(objects, rx_cls).create(ws, vertices=verts, cells=np.array([[0, 1], [1, 2], [3, 4], [4, 5]], dtype="uint32"), name="rx")
             rx.ab_cell_id = np.array([1, 2, 3, 4], dtype="int32")
+        elif px_cls and cfg.get("link_at_creation") == "rx":
+            # the link is given as a creation keyword: made while the new entity is not yet on file
+            px = getattr(objects, px_cls).create(ws, vertices=verts + 1.0, name="px")
+            rx = getattr(objects, rx_cls).create(ws, vertices=verts, name="rx", **{rx_attr: px})
+            out["linked"] = True
+        elif px_cls and cfg.get("link_at_creation") == "px":
+            rx = getattr(objects, rx_cls).create(ws, vertices=verts, name="rx")
+            px = getattr(objects, px_cls).create(ws, vertices=verts + 1.0, name="px", **{px_attr: rx})
+            out["linked"] = True
         else:
             rx = getattr(objects, rx_cls).create(ws, vertices=verts, name="rx")
             px = getattr(objects, px_cls).create(ws, vertices=verts + 1.0, name="px") if px_cls else None
@@ -219,7 +228,10 @@ class SurveyScenario(BaseScenario):
                 ids = self.build(ws, cfg, random.Random(H(seed, "build")))
                 sim.end_op()
                 sim.probe("pair:" + cfg["pair"])
-                st["pairs"] = [{"ws": "A", "rx": ids["rx"], "px": ids["px"], "linked": False, "expect": {}}]
+                st["pairs"] = [{"ws": "A", "rx": ids["rx"], "px": ids["px"], "linked": bool(ids.get("linked")), "expect": {}}]
+                if ids.get("linked"):
+                    sim.probe("link_at_creation")
+                    self.check_pair(sim, ws, ids["rx"], ids["px"], cfg, "create:after", True, {})
                 if PAIRS[cfg["pair"]][4] == "single":
                     st["pairs"][0]["linked"] = False
                 n_ops = len(ops) if ops is not None else cfg["n_ops"]
